@@ -457,3 +457,87 @@ pub fn par(input: &str, out: &mut impl std::io::Write) {
     writeln!(out, "RB {}", done_b.lock().unwrap().clone().unwrap()).unwrap();
     writeln!(out, "END").unwrap();
 }
+
+/// `stress`: free-running threads (real parallelism, no scheduler) hammering one function with
+/// calls and invalidations; afterwards the cache is dumped at quiescence together with the
+/// statistics and the number of lookups performed. Input: one line
+///   `STRESS id f<idx> threads ops seed`
+pub fn stress(input: &str, out: &mut impl std::io::Write) {
+    let t: Vec<&str> = input.split_whitespace().collect();
+    let f: usize = t[2][1..].parse().unwrap();
+    let threads: usize = t[3].parse().unwrap();
+    let ops: usize = t[4].parse().unwrap();
+    let seed: u64 = t[5].parse().unwrap();
+    let limit: u32 = t[6].parse().unwrap_or(3);
+    writeln!(out, "CCASE {} f{} {} stress -", t[1], f, corpus::flavour(f)).unwrap();
+    // register and warm up on this thread
+    let v0 = |x: u32| ((f as u64) * 37 + (x as u64) * 11) % 500 + 1;
+    let r = do_call(f, 0, rt::Script { ok: true, v: v0(0), len: 8, inv: false, cif: true });
+    let mut calls: u64 = 1;
+    let _ = r;
+    let bad = Arc::new(Mutex::new(Vec::<String>::new()));
+    let total_calls = Arc::new(std::sync::atomic::AtomicU64::new(0));
+    let mut hs = Vec::new();
+    for th in 0..threads {
+        let (bad, total_calls) = (bad.clone(), total_calls.clone());
+        hs.push(std::thread::spawn(move || {
+            let mut s = seed.wrapping_mul(0x9E3779B97F4A7C15).wrapping_add(th as u64 + 1);
+            let mut next = || {
+                s = s.wrapping_add(0x9E3779B97F4A7C15);
+                let mut z = s;
+                z = (z ^ (z >> 30)).wrapping_mul(0xBF58476D1CE4E5B9);
+                z = (z ^ (z >> 27)).wrapping_mul(0x94D049BB133111EB);
+                z ^ (z >> 31)
+            };
+            for _ in 0..ops {
+                let k = next() % 100;
+                if k < 90 {
+                    let x = (next() % (limit as u64 + 3)) as u32;
+                    let want = ((f as u64) * 37 + (x as u64) * 11) % 500 + 1;
+                    let r = do_call(f, x, rt::Script { ok: true, v: want, len: 8, inv: false, cif: true });
+                    total_calls.fetch_add(1, std::sync::atomic::Ordering::SeqCst);
+                    if let Some(p) = r.panic {
+                        bad.lock().unwrap().push(format!("PANIC {}", p));
+                    } else if r.enc != 2 * want {
+                        bad.lock().unwrap().push(format!("VALUE call f{} x={} returned enc {}, the function's value is {}", f, x, r.enc, want));
+                    }
+                } else if k < 95 {
+                    let x = (next() % (limit as u64 + 3)) as u32;
+                    let key = corpus::expected_key(f, x);
+                    cachelito_core::invalidate_with(corpus::cache_name(f), |q| q == key);
+                } else if k < 98 {
+                    cachelito_core::invalidate_cache(corpus::cache_name(f));
+                } else {
+                    let _ = cachelito_core::stats_registry::get(corpus::cache_name(f));
+                }
+            }
+        }));
+    }
+    for h in hs {
+        let _ = h.join();
+    }
+    calls += total_calls.load(std::sync::atomic::Ordering::SeqCst);
+    for b in bad.lock().unwrap().iter().take(5) {
+        writeln!(out, "BAD {}", b).unwrap();
+    }
+    let snap = take_snapshot(f);
+    let q: Vec<String> = snap.queue.iter().map(|k| k.to_string()).collect();
+    let st: Vec<String> = snap.store.iter().map(|(k, e, fr, _)| format!("{}:{}:{}", k, e, fr)).collect();
+    writeln!(out, "SCHED reached=1 b_blocked=0 deadlock=0 stress=1").unwrap();
+    writeln!(out, "W {} | {} | {}", f, if q.is_empty() { "-".into() } else { q.join(",") }, if st.is_empty() { "-".into() } else { st.join(";") }).unwrap();
+    match cachelito_core::stats_registry::get(corpus::cache_name(f)) {
+        Some(s) => writeln!(out, "STATS {} {} {} {}", f, s.hits(), s.misses(), calls).unwrap(),
+        None => writeln!(out, "STATS {} none none {}", f, calls).unwrap(),
+    }
+    // a sequential probe: the bound must hold again
+    for x in 10..16u32 {
+        let want = ((f as u64) * 37 + (x as u64) * 11) % 500 + 1;
+        let r = do_call(f, x, rt::Script { ok: true, v: want, len: 8, inv: false, cif: true });
+        writeln!(out, "Q call {} {} 0 ok {} 8 0 1 => call exec={} enc={}", f, x, want, r.executed, r.enc).unwrap();
+    }
+    let snap = take_snapshot(f);
+    let q: Vec<String> = snap.queue.iter().map(|k| k.to_string()).collect();
+    let st: Vec<String> = snap.store.iter().map(|(k, e, fr, _)| format!("{}:{}:{}", k, e, fr)).collect();
+    writeln!(out, "W {} | {} | {}", f, if q.is_empty() { "-".into() } else { q.join(",") }, if st.is_empty() { "-".into() } else { st.join(";") }).unwrap();
+    writeln!(out, "END").unwrap();
+}
